@@ -760,11 +760,19 @@ def rowless_marks(prog):
     return marks
 
 
+
+def _run_tag():
+    """pid of the DRIVER process of this run (workers are its forked children): scratch directories carry it, so that
+    two runs of this check at the same time (evaluations of several trees) do not see each other's directories"""
+    import multiprocessing
+    return os.getpid() if multiprocessing.current_process().name == "MainProcess" else os.getppid()
+
+
 def run_plain(case):
     """case = (prog, cfg key, faults, cleanups, hooks, show_skipped)"""
     prog, cfg, faults, cleanups, hooks, show = case
     cfgd = dict(runcases.CFGS[cfg] if isinstance(cfg, str) else cfg)
-    d = tempfile.mkdtemp(dir=SHM, prefix="c16run-")
+    d = tempfile.mkdtemp(dir=SHM, prefix="c16run-%d-" % _run_tag())
     d2 = os.path.join(d, "other")
     d = os.path.join(d, "primary")
     try:
@@ -810,7 +818,7 @@ def run_hostile(case):
     """case = (shape id, ((slot, atom id), ...), show_skipped, switch bits or None)"""
     shape, assign, show, bits = case
     _, tagexpr, feat_hook = HSHAPES[shape]
-    d = tempfile.mkdtemp(dir=SHM, prefix="c16run-")
+    d = tempfile.mkdtemp(dir=SHM, prefix="c16run-%d-" % _run_tag())
     try:
         args = ["--junit", "--junit-directory", d, "--no-summary", "--show-skipped" if show else "--no-skipped"]
         if tagexpr:
@@ -942,7 +950,7 @@ def run_addressed(case):
     m = harness._imp()
     harness.reset_globals()
     from behave.runner import Runner
-    d = tempfile.mkdtemp(dir=SHM, prefix="c16run-")
+    d = tempfile.mkdtemp(dir=SHM, prefix="c16run-%d-" % _run_tag())
     cwd = os.getcwd()
     root = logging.getLogger()
     saved_handlers, saved_level = list(root.handlers), root.level
@@ -1116,4 +1124,4 @@ def run(ctx):
         ctx.guard("('addressed', '%s', " % mode in flat and "('addressed', '%s', 0" % mode not in flat,
                   "addressing mode %s ran at least one feature" % mode)
     ctx.guard(len(ctx.outcomes) > 20, "at least 20 distinct report structures")
-    ctx.guard(not glob.glob(os.path.join(SHM, "c16run-*")), "every per-case report directory was removed")
+    ctx.guard(not glob.glob(os.path.join(SHM, "c16run-%d-*" % _run_tag())), "every per-case report directory was removed")
